@@ -97,9 +97,9 @@ Proof.
     (* use *)
     destruct (resolve_href doc x) as [link|]; [|split; [exact (Hbump eq_refl)|discriminate]].
     destruct (use_skipped doc x origin link); [split; [exact (Hbump eq_refl)|discriminate]|].
-    destruct (IH doc link (Some (xuid x)) true (depth + USE_DEPTH_STEP) (bump (note_depth st depth))) as [H1 H2];
+    destruct (IH doc link (origin_push doc x link origin) true (depth + USE_DEPTH_STEP) (bump (note_depth st depth))) as [H1 H2];
       [lia|lia|exact (Hbump eq_refl)|].
-    destruct (bnode dl nl f doc link (Some (xuid x)) true (depth + USE_DEPTH_STEP) (bump (note_depth st depth)))
+    destruct (bnode dl nl f doc link (origin_push doc x link origin) true (depth + USE_DEPTH_STEP) (bump (note_depth st depth)))
       as [s2 [ks| |]]; cbn [fst snd] in *; (split; [exact H1|congruence]).
 Qed.
 End Limits.
@@ -111,12 +111,12 @@ Lemma build_inv doc :
 Proof.
   unfold build, build_with.
   pose proof (bnode_inv DEPTH_LIMIT NODES_LIMIT (NODES_LIMIT + 1) ltac:(lia) ltac:(unfold DEPTH_LIMIT; lia)
-                build_fuel doc doc None false 0 bstate0) as H.
+                build_fuel doc doc [] false 0 bstate0) as H.
   destruct H as [[H1 H2] H3].
   - unfold build_fuel. rewrite Nat2Z.inj_add, Z2Nat.id by (unfold DEPTH_LIMIT; lia). lia.
   - unfold max_step, DEPTH_LIMIT, KID_DEPTH_STEP, USE_DEPTH_STEP, TEXT_DEPTH_STEP. lia.
   - split; unfold bstate0; cbn [b_maxdepth b_count]; unfold max_step, DEPTH_LIMIT, KID_DEPTH_STEP, USE_DEPTH_STEP, TEXT_DEPTH_STEP, NODES_LIMIT; lia.
-  - destruct (bnode DEPTH_LIMIT NODES_LIMIT build_fuel doc doc None false 0 bstate0)
+  - destruct (bnode DEPTH_LIMIT NODES_LIMIT build_fuel doc doc [] false 0 bstate0)
       as [s [ks| |]]; cbn [fst snd] in *; repeat split; try assumption; congruence.
 Qed.
 
@@ -175,7 +175,8 @@ Qed.
 End Inv.
 
 (* ------------------------------------------------------------------------------------------ *)
-(* outside the known class (no re-entered use expansion) the expansion has finite depth         *)
+(* the use expansion is finite for every reference graph: each expansion puts a new element of   *)
+(* the document on the in-progress list                                                          *)
 (* ------------------------------------------------------------------------------------------ *)
 Definition not_depth_fail (o : outcome (list snode)) : Prop := o <> OErr EDepth /\ o <> OOut.
 
@@ -189,93 +190,164 @@ Proof.
   destruct (bkids rec r s1) as [s2 [b|e|]]; cbn [snd] in *; [split; discriminate|exact Hr|exact Hr].
 Qed.
 
-Lemma utext_false_finite dl nl : forall fuel x,
-  utext fuel x = false ->
-  forall depth st, depth + max_step * Z.of_nat fuel <= dl ->
+
+Lemma filter_len_le {A} (g : A -> bool) l : (length (filter g l) <= length l)%nat.
+Proof. induction l as [|a r IH]; cbn [filter length]; [lia|]. destruct (g a); cbn [length]; lia. Qed.
+
+Lemma fold_max_le k ks : In k ks -> (xheight k <= fold_right (fun k m => Nat.max (xheight k) m) O ks)%nat.
+Proof.
+  induction ks as [|a r IH]; [intros []|]. intros [->|H]; cbn [fold_right]; [lia|]. specialize (IH H). lia.
+Qed.
+
+Lemma xheight_kid x k : In k (xkids x) -> (xheight k < xheight x)%nat.
+Proof. destruct x as [u t n f a ks]. cbn [xkids xheight]. intro H. pose proof (fold_max_le k ks H). lia. Qed.
+
+Lemma xnode_ind' (P : xnode -> Prop) :
+  (forall u t n f a ks, Forall P ks -> P (XN u t n f a ks)) -> forall x, P x.
+Proof.
+  intro H. fix IH 1. intros [u t n f a ks]. apply H.
+  induction ks as [|k r IHr]; constructor; [apply IH | exact IHr].
+Qed.
+
+Lemma xheight_flat : forall x y, In y (xflat x) -> (xheight y <= xheight x)%nat.
+Proof.
+  induction x as [u t n f a ks IH] using xnode_ind'. intros y Hy. cbn [xflat] in Hy.
+  destruct Hy as [<-|Hy]; [lia|]. apply in_flat_map in Hy. destruct Hy as (k & Hk & Hyk).
+  rewrite Forall_forall in IH. specialize (IH k Hk y Hyk).
+  pose proof (xheight_kid (XN u t n f a ks) k Hk). lia.
+Qed.
+
+Lemma resolve_href_in doc x l : resolve_href doc x = Some l -> In l (xflat doc).
+Proof.
+  unfold resolve_href, xfind. destruct (attr_link AHref (xattrs x)); [|discriminate].
+  intro H. apply find_some in H. exact (proj1 H).
+Qed.
+
+Lemma mem_uid_true u l : mem_uid u l = true <-> In u l.
+Proof.
+  unfold mem_uid. rewrite existsb_exists. split.
+  - intros (y & Hy & E). apply Nat.eqb_eq in E. subst. exact Hy.
+  - intro H. exists u. split; [exact H|apply Nat.eqb_refl].
+Qed.
+
+Lemma filter_len_lt {A} (g h : A -> bool) l a :
+  (forall x, g x = true -> h x = true) -> In a l -> h a = true -> g a = false ->
+  (length (filter g l) < length (filter h l))%nat.
+Proof.
+  intros Hgh Hin Hh Hg. induction l as [|b r IH]; [destruct Hin|]. cbn [filter].
+  assert (Hle : forall r0 : list A, (length (filter g r0) <= length (filter h r0))%nat).
+  { induction r0 as [|c r0 IH0]; cbn [filter]; [lia|]. destruct (g c) eqn:E; [rewrite (Hgh c E); simpl; lia|]. destruct (h c); simpl; lia. }
+  destruct Hin as [->|Hin].
+  - rewrite Hg, Hh. specialize (Hle r). simpl. lia.
+  - specialize (IH Hin). destruct (g b) eqn:E; [rewrite (Hgh b E); simpl; lia|]. destruct (h b); simpl; lia.
+Qed.
+
+Lemma fresh_push doc node link origin :
+  In link (xflat doc) -> mem_uid (xuid link) origin = false ->
+  (fresh_count doc (origin_push doc node link origin) < fresh_count doc origin)%nat.
+Proof.
+  intros Hin Hm. unfold fresh_count, origin_push. change G_USE_PUSH with true. cbn iota.
+  apply (filter_len_lt _ _ _ link); [|exact Hin|rewrite Hm; reflexivity|].
+  - intros y Hy. apply negb_true_iff in Hy. apply negb_true_iff.
+    destruct (mem_uid (xuid y) origin) eqn:E; [|reflexivity].
+    apply mem_uid_true in E.
+    assert (mem_uid (xuid y) (xuid link :: xancestors doc (xuid node) ++ origin) = true) as Ht
+      by (apply mem_uid_true; right; apply in_or_app; right; exact E). congruence.
+  - apply negb_false_iff. apply mem_uid_true. left. reflexivity.
+Qed.
+
+Lemma btext_finite dl nl : forall fuel x depth st,
+  (xheight x <= fuel)%nat -> depth + max_step * Z.of_nat fuel <= dl ->
   not_depth_fail (snd (btext dl nl fuel x depth st)).
 Proof.
   assert (Hms : max_step = 2) by reflexivity. rewrite Hms in *.
   assert (Hstep : 1 <= TEXT_DEPTH_STEP <= 2) by (unfold TEXT_DEPTH_STEP; lia).
-  induction fuel as [|f IH]; intros x Hu depth st Hd; [discriminate|].
-  rewrite Nat2Z.inj_succ in Hd. cbn [utext] in Hu. cbn [btext].
-  assert (Ed : depth >? dl = false) by (rewrite Z.gtb_ltb; apply Z.ltb_ge; lia).
-  rewrite Ed, andb_false_r.
-  apply bkids_not_depth. intros k s Hk.
-  destruct (xtag k) eqn:Et; try (split; discriminate).
-  destruct (G_NODES_BEFORE_APPEND && (b_count s >? nl)); [split; discriminate|].
-  assert (Hk' : utext f k = false).
-  { destruct (utext f k) eqn:E; [|reflexivity].
-    assert (existsb (fun k => match xtag k with TTspan => utext f k | _ => false end) (xkids x) = true) as Ht
-      by (apply existsb_exists; exists k; split; [exact Hk|rewrite Et; exact E]). congruence. }
-  assert (Hr : not_depth_fail (snd (btext dl nl f k (depth + TEXT_DEPTH_STEP) (bump s)))) by (apply IH; [exact Hk'|lia]).
-  destruct (btext dl nl f k (depth + TEXT_DEPTH_STEP) (bump s)) as [s2 [ks|e|]]; cbn [snd] in *;
-    [split; discriminate|exact Hr|exact Hr].
+  induction fuel as [|f IH]; intros x depth st Hh Hd.
+  - exfalso. destruct x. cbn [xheight] in Hh. lia.
+  - rewrite Nat2Z.inj_succ in Hd. cbn [btext].
+    assert (Ed : depth >? dl = false) by (rewrite Z.gtb_ltb; apply Z.ltb_ge; lia).
+    rewrite Ed, andb_false_r.
+    apply bkids_not_depth. intros k s Hk.
+    destruct (xtag k) eqn:Et; try (split; discriminate).
+    destruct (G_NODES_BEFORE_APPEND && (b_count s >? nl)); [split; discriminate|].
+    pose proof (xheight_kid x k Hk) as Hlt.
+    assert (Hr : not_depth_fail (snd (btext dl nl f k (depth + TEXT_DEPTH_STEP) (bump s)))) by (apply IH; lia).
+    destruct (btext dl nl f k (depth + TEXT_DEPTH_STEP) (bump s)) as [s2 [ks|e|]]; cbn [snd] in *;
+      [split; discriminate|exact Hr|exact Hr].
 Qed.
 
-Lemma uloop_false_finite dl nl doc : forall fuel path x origin,
-  uloop fuel doc path x origin = false ->
-  forall ig depth st, depth + max_step * Z.of_nat fuel <= dl ->
+Lemma expansion_finite dl nl doc : forall fuel x origin ig depth st,
+  (xheight x <= xheight doc)%nat ->
+  (fresh_count doc origin * (xheight doc + 2) + xheight x + 1 <= fuel)%nat ->
+  depth + max_step * Z.of_nat fuel <= dl ->
   not_depth_fail (snd (bnode dl nl fuel doc x origin ig depth st)).
 Proof.
   assert (Hstep1 : 1 <= KID_DEPTH_STEP <= max_step) by (unfold max_step, KID_DEPTH_STEP, USE_DEPTH_STEP, TEXT_DEPTH_STEP; lia).
   assert (Hstep2 : 1 <= USE_DEPTH_STEP <= max_step) by (unfold max_step, KID_DEPTH_STEP, USE_DEPTH_STEP, TEXT_DEPTH_STEP; lia).
   assert (Hstep3 : 1 <= TEXT_DEPTH_STEP <= max_step) by (unfold max_step, KID_DEPTH_STEP, USE_DEPTH_STEP, TEXT_DEPTH_STEP; lia).
-  pose proof (utext_false_finite dl nl) as Htext.
+  pose proof (btext_finite dl nl) as Htext.
   assert (Hms : max_step = 2) by reflexivity. rewrite Hms in *.
-  induction fuel as [|f IH]; intros path x origin Hu ig depth st Hd; [discriminate|].
-  rewrite Nat2Z.inj_succ in Hd.
-  cbn [uloop] in Hu. cbn [bnode].
+  set (H := xheight doc).
+  induction fuel as [|f IH]; intros x origin ig depth st Hx HF Hd; [lia|].
+  rewrite Nat2Z.inj_succ in Hd. cbn [bnode].
   assert (Ed : depth >? dl = false) by (rewrite Z.gtb_ltb; apply Z.ltb_ge; lia).
   rewrite Ed, andb_false_r.
-  assert (Hkids : forall tg, existsb (fun k => uloop f doc path k origin) (xkids x) = false ->
-            forall mk : tagk -> list snode -> snode,
+  assert (Hkids : forall (tg : tagk) (mk : tagk -> list snode -> snode),
             not_depth_fail (snd (match bkids (fun k s => bnode dl nl f doc k origin ig (depth + KID_DEPTH_STEP) s) (xkids x)
                                              (bump (note_depth st depth)) with
                                  | (st2, OOk ks) => (st2, OOk [mk tg ks])
                                  | (st2, e) => (st2, e)
                                  end))).
-  { intros tg He mk.
+  { intros tg mk.
     assert (Hb : not_depth_fail (snd (bkids (fun k s => bnode dl nl f doc k origin ig (depth + KID_DEPTH_STEP) s) (xkids x)
                                             (bump (note_depth st depth))))).
-    { apply bkids_not_depth. intros k s Hk. apply (IH path); [|lia].
-      destruct (uloop f doc path k origin) eqn:E; [|reflexivity].
-      assert (existsb (fun k => uloop f doc path k origin) (xkids x) = true) as Ht
-        by (apply existsb_exists; exists k; split; assumption). congruence. }
+    { apply bkids_not_depth. intros k s Hk. pose proof (xheight_kid x k Hk). apply IH; lia. }
     destruct (bkids _ (xkids x) (bump (note_depth st depth))) as [s2 [ks|e|]]; cbn [snd] in *;
       [split; discriminate|exact Hb|exact Hb]. }
   destruct (xtag x) eqn:Et; try (split; discriminate);
     (destruct (G_NODES_BEFORE_APPEND && (b_count (note_depth st depth) >? nl)); [split; discriminate|]);
-    try (exact (Hkids _ Hu (fun tg ks => SN (b_next (note_depth st depth)) tg (if ig then None else xname x) (xflag x) (xattrs x) ks)));
+    try (exact (Hkids _ (fun tg ks => SN (b_next (note_depth st depth)) tg (if ig then None else xname x) (xflag x) (xattrs x) ks)));
     try (split; discriminate).
   (* text *)
   all: try (assert (Ht : not_depth_fail (snd (btext dl nl f x (depth + TEXT_DEPTH_STEP) (bump (note_depth st depth)))))
-              by (apply Htext; [exact Hu|lia]);
+              by (apply Htext; lia);
             destruct (btext dl nl f x (depth + TEXT_DEPTH_STEP) (bump (note_depth st depth))) as [s2 [ks|e|]]; cbn [snd] in *;
             [split; discriminate|exact Ht|exact Ht]).
   (* use *)
-  destruct (resolve_href doc x) as [link|]; [|split; discriminate].
-  destruct (use_skipped doc x origin link); [split; discriminate|].
-  destruct (existsb (state_eqb (xuid link, Some (xuid x))) path); [discriminate|].
-  assert (Hl : not_depth_fail (snd (bnode dl nl f doc link (Some (xuid x)) true (depth + USE_DEPTH_STEP) (bump (note_depth st depth)))))
-    by (apply (IH _ _ _ Hu); lia).
-  destruct (bnode dl nl f doc link (Some (xuid x)) true (depth + USE_DEPTH_STEP) (bump (note_depth st depth)))
+  destruct (resolve_href doc x) as [link|] eqn:El; [|split; discriminate].
+  destruct (use_skipped doc x origin link) eqn:Es; [split; discriminate|].
+  assert (Hin : In link (xflat doc)) by (eapply resolve_href_in; exact El).
+  assert (Hm : mem_uid (xuid link) origin = false).
+  { unfold use_skipped, use_self_or_origin in Es. change G_USE_ORIGIN with true in Es.
+    repeat (apply orb_false_iff in Es; destruct Es as [Es ?]). cbn [andb] in *. assumption. }
+  pose proof (fresh_push doc x link origin Hin Hm) as Hlt.
+  pose proof (xheight_flat doc link Hin) as Hhl. fold H in Hhl.
+  assert (Hl : not_depth_fail (snd (bnode dl nl f doc link (origin_push doc x link origin) true (depth + USE_DEPTH_STEP)
+                                          (bump (note_depth st depth))))).
+  { apply IH; [exact Hhl| |lia].
+    assert ((fresh_count doc (origin_push doc x link origin) + 1) * (H + 2) <= fresh_count doc origin * (H + 2))%nat
+      by (apply Nat.mul_le_mono_r; lia). lia. }
+  destruct (bnode dl nl f doc link (origin_push doc x link origin) true (depth + USE_DEPTH_STEP) (bump (note_depth st depth)))
     as [s2 [ks|e|]]; cbn [snd] in *; [split; discriminate|exact Hl|exact Hl].
 Qed.
 
-(* with a depth limit proportional to the fuel of the loop detector, a document outside the class is
-   never rejected for its depth, whatever the node limit is *)
-Lemma no_use_loop_finite doc nl : use_loop doc = false ->
-  let F := loop_fuel doc in
+(* every document: with limits that only depend on its size, the construction is never stopped by the depth limit *)
+Lemma build_expansion_finite doc nl :
+  let F := expansion_fuel doc in
   match snd (build_with (max_step * Z.of_nat F) nl F doc) with
   | OErr EDepth | OOut => False
   | _ => True
   end.
 Proof.
-  intros Hu F. unfold build_with.
-  pose proof (uloop_false_finite (max_step * Z.of_nat F) nl doc F [] doc None Hu false 0
-                bstate0) as H.
-  destruct (bnode (max_step * Z.of_nat F) nl F doc doc None false 0 bstate0)
-    as [s [ks|e|]]; cbn [snd] in *; [exact I| |].
-  - destruct H as [H _]; [lia|]. destruct e; [congruence|exact I].
-  - destruct H as [_ H]; [lia|]. congruence.
+  intro F. unfold build_with.
+  pose proof (expansion_finite (max_step * Z.of_nat F) nl doc F doc [] false 0 bstate0) as H.
+  assert (Hfc : (fresh_count doc [] <= length (xflat doc))%nat).
+  { unfold fresh_count. apply filter_len_le. }
+  destruct (bnode (max_step * Z.of_nat F) nl F doc doc [] false 0 bstate0) as [s [ks|e|]]; cbn [snd] in *; [exact I| |].
+  - destruct H as [H _]; [lia| |lia|].
+    + unfold F, expansion_fuel. apply (Nat.mul_le_mono_r _ _ (xheight doc + 2)) in Hfc. lia.
+    + destruct e; [congruence|exact I].
+  - destruct H as [_ H]; [lia| |lia|].
+    + unfold F, expansion_fuel. apply (Nat.mul_le_mono_r _ _ (xheight doc + 2)) in Hfc. lia.
+    + congruence.
 Qed.
